@@ -49,17 +49,21 @@ def check_notify_model(chk, binp, replays, limit):
     edit.  Informational: a difference is an ASSUMPTION difference (drift), never a violation."""
     seen, scen = set(), []
     for rp in replays:
-        ops = [o for o in rp["ops"] if o["op"] in ("write", "delete", "rename", "rmdir", "mvdir")]
+        ops = [o for o in rp["ops"] if o["op"] in ("write", "delete", "rename", "rmdir", "mvdir", "batch")]
         if len(ops) != len(rp["ops"]) or not ops:
             continue
         last = ops[-1]
-        key = (last["op"], last.get("p"), last.get("q"), len(ops))
+        if any(o["op"] == "batch" for o in ops[:-1]):
+            continue
+        key = (last["op"], last.get("p"), last.get("q"), json.dumps(last.get("edits")), len(ops))
         if key in seen:
             continue
         seen.add(key)
         base = [{"op": "write", "p": "src/a/x.ts"}, {"op": "write", "p": "src/ab/y.ts"}, {"op": "write", "p": "src/top.ts"}]
         scen.append({"id": len(scen), "setup": base + [{k: v for k, v in o.items() if k != "evs"} for o in ops[:-1]],
                      "edit": {k: v for k, v in last.items() if k != "evs"}, "model": last["evs"]})
+        if last["op"] == "batch":
+            scen[-1]["edits"] = last["edits"]
         if len(scen) >= limit:
             break
     if not scen:
@@ -134,7 +138,7 @@ def run(chk: vlib.Check):
         k = rp["ops"][-1]["op"]
         kinds[k] = kinds.get(k, 0) + 1
     chk.cov["actions_taken"] = kinds
-    need = {"write", "delete", "rename", "rmdir", "mvdir", "schema", "rmschema", "gc"}
+    need = {"write", "delete", "rename", "rmdir", "mvdir", "schema", "rmschema", "gc", "batch"}
     if not need <= set(kinds):
         raise ToolError(f"vacuous model run: actions never taken: {sorted(need - set(kinds))}")
     obs = run_harness(binp, chk, replays)
@@ -160,7 +164,10 @@ def run(chk: vlib.Check):
             if not rp["okA"] and rp["devs"]:
                 sig = "C20:" + "+".join(sorted(rp["devs"]))
             else:
-                sig = "C20:unexplained:" + ",".join(o["op"] + "(" + str(o.get("p", o.get("c", ""))) + ")" for o in strip(rp["ops"]))
+                sig = "C20:unexplained:" + ",".join(
+                    (o["op"] + "(" + str(o.get("p", o.get("c", ""))) + ")") if o["op"] != "batch"
+                    else "batch[" + "+".join(e["op"] + "(" + str(e.get("p", "")) + ")" for e in o["edits"]) + "]"
+                    for o in strip(rp["ops"]))
             if sig not in found or len(rp["ops"]) < len(found[sig][0]["ops"]):
                 found[sig] = (rp, ob, bads[i]["why"])
         elif not real_ok and i not in bads:
